@@ -710,7 +710,8 @@ func hugeHintedFill(r *ev.Run, id string) {
 // next un-hinted allocation must still be the first free block, and the far block can be
 // freed exactly once.
 func farHints(r *ev.Run, id string) {
-	pools := []Pool{{CIDR: "2001:db8::/38", Page: 64}, {CIDR: "2001:db8::/29", Page: 56}, {CIDR: "2001:db8::/39", Page: 64}, {V4: true, Start: "10.0.0.0", End: "11.255.255.255"}}
+	pools := []Pool{{CIDR: "2001:db8::/38", Page: 64}, {CIDR: "2001:db8::/29", Page: 56}, {CIDR: "2001:db8::/39", Page: 64}, {V4: true, Start: "10.0.0.0", End: "11.255.255.255"},
+		{CIDR: "2001:db8::/31", Page: 64}} // 2^33 blocks: indices beyond 32 bits (1 GiB of untouched bitmap)
 	if !r.Quick() {
 		pools = append(pools, Pool{CIDR: "2001:db8::/35", Page: 64}, Pool{V4: true, Start: "10.0.0.0", End: "17.255.255.255"})
 	}
@@ -733,7 +734,7 @@ func farHints(r *ev.Run, id string) {
 			return net.IPNet{IP: ip, Mask: net.CIDRMask(p.Page, 128)}
 		}
 		var far []int64
-		for _, c := range []int64{g.n - 1, 1<<24 + 1<<16, 1<<24 + 1<<16 + 1, 1<<24 - 1, 1 << 24, 1<<25 - 1, 1<<25 + 12345, 1<<26 + 7, g.n / 2, 1 << 16, 1<<16 + 1, 1 << 20} {
+		for _, c := range []int64{g.n - 1, 1<<24 + 1<<16, 1<<24 + 1<<16 + 1, 1<<24 - 1, 1 << 24, 1<<25 - 1, 1<<25 + 12345, 1<<26 + 7, g.n / 2, 1 << 16, 1<<16 + 1, 1 << 20, 1<<32 - 1, 1 << 32, 1<<32 + 5, 1<<31 + 3} {
 			if c >= 0 && c < g.n {
 				far = append(far, c)
 			}
@@ -757,6 +758,15 @@ func farHints(r *ev.Run, id string) {
 				blk := int64(-1)
 				if err == nil {
 					blk = g.blockOf(new(big.Int).SetBytes(got.IP))
+				}
+				if ok && err == nil && blk >= 0 {
+					// whatever block was returned is outstanding now: naming it again must not
+					// return it a second time
+					if n4, err4 := a.Allocate(net4(blk)); err4 == nil && g.blockOf(new(big.Int).SetBytes(n4.IP)) == blk {
+						viol("C04", "double-allocation/far", fmt.Sprintf("%s: block %d was returned, and returned again when named by the next hint", sc, blk), sc)
+					} else if err4 == nil {
+						a.Free(n4)
+					}
 				}
 				if ok && (err != nil || blk != f) {
 					viol("C07", "hint-not-honoured/far", fmt.Sprintf("%s: returned %v (block %d), %v", sc, got, blk, err), sc)
@@ -795,10 +805,150 @@ func farHints(r *ev.Run, id string) {
 	}
 }
 
+// freeEachAfterFill: pools of 65..257 blocks (several bitmap words) filled to exhaustion; then,
+// for every block k (and for pairs k1 < k2): Free(k) succeeds, the next un-hinted Allocate
+// succeeds and returns exactly the free block, and the pool is full again. Also the reverse
+// direction: blocks freed in descending order come back lowest first.
+func freeEachAfterFill(r *ev.Run, id string) {
+	pools := []Pool{{V4: true, Start: "10.0.0.0", End: "10.0.0.64"}, {V4: true, Start: "10.0.0.0", End: "10.0.0.129"}, {V4: true, Start: "10.0.0.0", End: "10.0.1.0"},
+		{CIDR: "2001:db8::/57", Page: 64}, {CIDR: "2001:db8::/56", Page: 64}}
+	if !r.Quick() {
+		pools = append(pools, Pool{V4: true, Start: "10.0.0.0", End: "10.0.3.255"}, Pool{CIDR: "2001:db8::/54", Page: 64})
+	}
+	for _, p := range pools {
+		g := newGeom(p)
+		fam := "ipv6"
+		if p.V4 {
+			fam = "ipv4"
+		}
+		a := newAlloc(p)
+		blk := func(i int64) net.IPNet {
+			return net.IPNet{IP: g.ipBytes(g.blockBase(i)), Mask: net.CIDRMask(g.page, g.width)}
+		}
+		blockOfNet := func(n net.IPNet) int64 {
+			if p.V4 {
+				if v4 := n.IP.To4(); v4 != nil {
+					return g.blockOf(new(big.Int).SetBytes(v4))
+				}
+				return -1
+			}
+			return g.blockOf(new(big.Int).SetBytes(n.IP.To16()))
+		}
+		broken := false
+		viol := func(prop, sig, what string, sc interface{}) {
+			broken = true
+			if prop == id {
+				r.Violate(prop+"/"+fam+"/"+sig, fmt.Sprintf("pool %v (%d blocks): %s", p, g.n, what), map[string]interface{}{"pool": p, "scenario": sc})
+			}
+		}
+		end := reg.OpBegin(fmt.Sprintf("pool %v: free-each-after-fill", p))
+		for i := int64(0); i < g.n; i++ {
+			if _, err := a.Allocate(net.IPNet{}); err != nil {
+				viol("C05", "alloc-fails-with-free-blocks", fmt.Sprintf("allocation %d of %d failed: %v", i+1, g.n, err), "fill")
+			}
+		}
+		pairs := [][2]int64{}
+		for k := int64(0); k < g.n; k++ {
+			pairs = append(pairs, [2]int64{k, -1})
+		}
+		for _, k1 := range []int64{0, 1, 63, 64, 65, 127, 128} {
+			for k2 := k1 + 1; k2 < g.n; k2 += 7 {
+				if k1 < g.n {
+					pairs = append(pairs, [2]int64{k2, k1}) // freed in descending order
+				}
+			}
+		}
+		for _, pr := range pairs {
+			if broken {
+				break
+			}
+			sc := fmt.Sprintf("pool filled; Free(block %d)", pr[0])
+			want := []int64{pr[0]}
+			if pr[1] >= 0 {
+				sc += fmt.Sprintf(", Free(block %d)", pr[1])
+				want = []int64{pr[1], pr[0]} // lowest first
+			}
+			for _, k := range []int64{pr[0], pr[1]} {
+				if k < 0 {
+					continue
+				}
+				if err := a.Free(blk(k)); err != nil {
+					viol("C06", "free-of-held-fails", fmt.Sprintf("%s: Free of outstanding block %d failed: %v", sc, k, err), sc)
+				}
+			}
+			got := map[int64]bool{}
+			for i := range want {
+				n, err := a.Allocate(net.IPNet{})
+				switch {
+				case err != nil:
+					viol("C05", "alloc-fails-with-free-blocks", fmt.Sprintf("%s: un-hinted allocation %d failed (%v) although %d blocks are free", sc, i+1, err, len(want)-i), sc)
+				case blockOfNet(n) != pr[0] && blockOfNet(n) != pr[1]:
+					viol("C04", "double-allocation", fmt.Sprintf("%s: un-hinted allocation returned %v (block %d), which is outstanding", sc, n, blockOfNet(n)), sc)
+					viol("C05", "alloc-succeeds-on-full-pool", fmt.Sprintf("%s: un-hinted allocation returned outstanding block %d", sc, blockOfNet(n)), sc)
+				default:
+					got[blockOfNet(n)] = true
+				}
+			}
+			if !broken && len(got) != len(want) {
+				viol("C04", "double-allocation", fmt.Sprintf("%s: the two allocations returned the same block", sc), sc)
+			}
+			if _, err := a.Allocate(net.IPNet{}); !broken && !errors.Is(err, allocators.ErrNoAddrAvail) {
+				viol("C05", "exhaustion-wrong-error", fmt.Sprintf("%s, re-allocated: one more allocation on the full pool returned %v", sc, err), sc)
+			}
+		}
+		end()
+		r.EvalN("free-each-after-fill/"+fam, int64(len(pairs)))
+	}
+}
+
+// freeNeverAllocated: on a fresh allocator (and after allocating every other block) a Free of a
+// block that is not outstanding fails and changes nothing, for EVERY block of pools of 257 and
+// 1024 blocks (block numbers with every low-byte value, word and /24 boundaries).
+func freeNeverAllocated(r *ev.Run, id string) {
+	for _, p := range []Pool{{V4: true, Start: "10.20.0.0", End: "10.20.1.0"}, {V4: true, Start: "10.20.0.0", End: "10.20.3.255"}, {V4: true, Start: "10.20.0.7", End: "10.20.4.6"}, {CIDR: "2001:db8::/54", Page: 64}} {
+		g := newGeom(p)
+		fam := "ipv6"
+		if p.V4 {
+			fam = "ipv4"
+		}
+		blk := func(i int64) net.IPNet {
+			return net.IPNet{IP: g.ipBytes(g.blockBase(i)), Mask: net.CIDRMask(g.page, g.width)}
+		}
+		for _, pre := range []string{"fresh allocator", "every even block allocated by hint"} {
+			a := newAlloc(p)
+			held := map[int64]bool{}
+			if pre != "fresh allocator" {
+				for i := int64(0); i < g.n; i += 2 {
+					if _, err := a.Allocate(blk(i)); err == nil {
+						held[i] = true
+					}
+				}
+			}
+			end := reg.OpBegin(fmt.Sprintf("pool %v: Free of every block that is not outstanding (%s)", p, pre))
+			bad := 0
+			for i := int64(0); i < g.n && bad < 3; i++ {
+				if held[i] {
+					continue
+				}
+				if err := a.Free(blk(i)); err == nil {
+					bad++
+					if id == "C06" {
+						r.Violate("C06/"+fam+"/free-of-unheld-succeeds/never-allocated", fmt.Sprintf("pool %v (%d blocks), %s: Free(%v) of block %d, which is not outstanding, returned nil", p, g.n, pre, blk(i), i), map[string]interface{}{"pool": p, "scenario": pre, "block": i})
+					}
+				}
+			}
+			end()
+			r.EvalN("free-never-allocated/"+fam, g.n)
+		}
+	}
+}
+
 // sweeps: linear fills of many pool geometries (C05), hint family at word boundaries (C07).
 func sweeps(r *ev.Run, id string) {
+	freeNeverAllocated(r, id)
 	hugeHintedFill(r, id)
 	farHints(r, id)
+	freeEachAfterFill(r, id)
 	bigFill(r, id, Pool{CIDR: "2001:db8::/47", Page: 64})                 // 2^17 blocks
 	bigFill(r, id, Pool{V4: true, Start: "10.0.0.0", End: "10.1.17.111"}) // 70 000 addresses
 	thorough := !r.Quick()
